@@ -63,6 +63,7 @@ var (
 
 func grpcGlobals() {
 	grpcGlobalOnce.Do(func() {
+		registerExtGlobally()
 		fd := verifSchema()
 		if err := protoregistry.GlobalFiles.RegisterFile(fd); err != nil {
 			panic(err)
